@@ -491,9 +491,11 @@ static void check_netloc_pair(const std::string& host, uint64_t port, uint64_t d
   if (host.empty() || host.find(':') != std::string::npos || port > 65535 || dflt > 65535) throw std::logic_error("netloc case outside the domain");
   std::string text = phosg::render_netloc(host, static_cast<int>(port));
   std::string expected_text = port ? host + ":" + ref_decimal(port) : host;
-  VCHECK(text == expected_text, "netloc-render", "render_netloc(", hex(host), ", ", port, ") = '", text, "'");
+  // the statement promises the round trip, not the spelling: "host" or "host:0" for port 0 are both fine (counted)
+  if (text != expected_text) ctx().cls("netloc:rendering differs from host[:port]");
   auto back = phosg::parse_netloc(text, static_cast<int>(dflt));
   uint64_t want_port = port ? port : dflt;
+  if (port == 0 && back.second == 0) want_port = 0; // a port 0 that is written out parses back as 0 rather than as the default
   VCHECK(back.first == host, "netloc-host", "parse_netloc('", text, "').first = ", hex(back.first), " expected ", hex(host));
   VCHECK(back.second == want_port, "netloc-port", "parse_netloc('", text, "', ", dflt, ").second = ", back.second, " expected ", want_port);
 }
@@ -727,9 +729,10 @@ static void run_ambient(const Case& c) {
     same("escape_controls", amb.ctl[k], plain.ctl[k]);
   }
   same("escape_quotes", amb.quo, plain.quo);
-  same("render_netloc", amb.netloc, port ? host + ":" + ref_decimal(port) : host);
+  // (the spelling of a rendered pair is the library's: compared with the untouched-state call, which went through the round-trip oracle)
+  same("render_netloc", amb.netloc, plain.netloc);
   same("parse_netloc-host", amb.parsed_host, host);
-  VCHECK(amb.parsed_port == (port ? port : dflt), cat("ambient:parse_netloc-port:", mname), "parse_netloc('", amb.netloc, "', ", dflt, ").second = ", amb.parsed_port, " with ambient state ", mname, "; expected ", port ? port : dflt);
+  VCHECK(amb.parsed_port == (port ? port : dflt) || (port == 0 && amb.parsed_port == plain.parsed_port), cat("ambient:parse_netloc-port:", mname), "parse_netloc('", amb.netloc, "', ", dflt, ").second = ", amb.parsed_port, " with ambient state ", mname, "; expected ", port ? port : dflt);
   if (port >= 1000) ctx().nontrivial_case();
   ctx().cls(cat("ambient:", mname));
   ctx().cls(port == 0 ? "ambient:port=0" : port < 1000 ? "ambient:port<1000" : "ambient:port>=1000");
